@@ -494,7 +494,9 @@ pub mod fasta {
             [C01,C03,C14,C17|fasta.first_byte.err] r matches Err(e) ==> (e matches Error::Io(x) && final(self).buf_reader.errs() == old(self).buf_reader.errs().push(x)),
 //@loop 0 kw=while
             invariant
-                [C01,C03,C04,C05,C06,C14|fasta.first_byte.outer.frame] self.wf0() && self.f() == old(self).f() && self.buf_policy == old(self).buf_policy
+                [C01,C03,C04|fasta.first_byte.outer.compacted] self.buf_reader.head() == 0,
+                [C01,C03,C04,C05,C06,C14|fasta.first_byte.outer.frame] self.buf_reader.wf() && self.buf_reader.cap() >= 1 && self.buf_policy.policy_ok()
+                    && self.f() == old(self).f() && self.buf_policy == old(self).buf_policy
                     && self.buf_reader.cap() == old(self).buf_reader.cap() && self.position.line == old(self).position.line
                     && self.state == old(self).state && self.buf_pos == old(self).buf_pos && self.search_pos == old(self).search_pos
                     && self.buf_reader.errs() == old(self).buf_reader.errs() && self.buf_reader.cap() >= 2
@@ -574,7 +576,7 @@ pub mod fasta {
                 lemma_nl_bounds(bb, lp);
                 assert(bb.subrange(lp, bb.len() as int).subrange(0, (bb.len() - lp) as int) =~= bb.subrange(lp, bb.len() as int));
             }
-//@after /self\.buf_reader\.make_room\(\);/
+//@loop_end 0
             proof {
                 let bb2 = self.b();
                 lemma_nl_bounds(bb2, 0);
@@ -611,7 +613,8 @@ pub mod fasta {
                 && final(self).base() + final(self).buf_pos.start == first_nonblank(final(self).f(), 0)
                 && final(self).position.byte == first_nonblank(final(self).f(), 0)
                 && final(self).position.line == true_line(final(self).f(), first_nonblank(final(self).f(), 0)),
-            [C01,C03,C04|fasta.init.empty] r matches Ok(false) ==> final(self).buf_reader.errs() == old(self).buf_reader.errs() && final(self).state == State::Finished && final(self).filled()
+            [C01,C04,C20|fasta.init.end_is_final] r matches Ok(false) ==> final(self).state == State::Finished,
+            [C01,C03,C04|fasta.init.empty] r matches Ok(false) ==> final(self).buf_reader.errs() == old(self).buf_reader.errs() && final(self).filled()
                 && (old(self).fresh() ==> first_nonblank(final(self).f(), 0) == final(self).f().len()),
             [C01,C03,C14,C17|fasta.init.err] r matches Err(e) ==> match e {
                 Error::Io(x) => final(self).buf_reader.errs() == old(self).buf_reader.errs().push(x) && final(self).state == State::Finished,
@@ -742,7 +745,8 @@ pub mod fasta {
             old(self).wf(),
         ensures
             [C01,C03,C04,C05,C06|fasta.next.wf] final(self).wf() && final(self).f() == old(self).f(),
-            [C01,C03,C04,C06|fasta.next.end] r is None ==> final(self).buf_reader.errs() == old(self).buf_reader.errs() && final(self).state == State::Finished
+            [C01,C04,C20|fasta.next.end_is_final] r is None ==> final(self).state == State::Finished,
+            [C01,C03,C04,C06|fasta.next.end] r is None ==> final(self).buf_reader.errs() == old(self).buf_reader.errs()
                 && (old(self).state == State::Finished || (old(self).state == State::New
                     && (old(self).fresh() ==> first_nonblank(old(self).f(), 0) == old(self).f().len()))),
             [C01,C04,C20|fasta.next.end_is_sticky] old(self).state == State::Finished ==> r is None,
@@ -813,7 +817,7 @@ pub mod fasta {
             old(self).state == State::Finished ==> old(self).position.byte == old(self).gpos() && old(self).position.byte <= old(self).f().len() + 1,
         ensures
             [C01,C03,C04,C05,C06|fasta.seek.frame] final(self).f() == old(self).f() && final(self).buf_policy == old(self).buf_policy,
-            [C03,C05|fasta.seek.positioned] r is Ok ==> final(self).wf() && final(self).state == State::Positioned
+            [C04,C05|fasta.seek.positioned] r is Ok ==> final(self).wf() && final(self).state == State::Positioned
                 && final(self).position == *to && final(self).gpos() == to.byte && final(self).cursor() == to.byte
                 && final(self).buf_reader.errs() == old(self).buf_reader.errs(),
             [C09|fasta.seek.capacity] final(self).buf_reader.cap() == old(self).buf_reader.cap(),
